@@ -6,7 +6,7 @@ GNU attribute groups); everything else the function does on the token stream (eq
 specifier tokens) is followed on the concrete tokens.  C11 6.7.2.1p13: the declaration adds an (anonymous) member exactly when
 its specifiers contain a struct/union specifier WITHOUT tag - however many __attribute__ groups stand between the keyword and
 the brace or after the brace, whatever qualifiers surround it, whatever the member list of that specifier contains."""
-from .interp import Interp, Obj, View, _Ref, _ValPlace
+from .interp import Interp, Obj, Sym, View, _Ref, _ValPlace
 from .build import AnalysisBroken
 
 PU = 'parse.c'
@@ -49,6 +49,9 @@ def worlds():
             ('%s/tag-reference' % kw, [kw, 'In', ';']),
             ('%s/tag-reference+attribute-group' % kw, [kw] + _A(_PK) + ['In', ';']),
         ]
+    W.append(('alignas-constant+untagged', ['_Alignas', '(', '8', ')', 'struct'] + _BODY + [';']))
+    W.append(('alignas-of-untagged-record+typedef-name', ['_Alignas', '(', 'union', '{', 'long', 'a', ';', '}', ')', 'T', ';']))
+    W.append(('alignas-of-untagged-record+tagged-definition', ['_Alignas', '(', 'struct', '{', 'long', 'a', ';', '}', ')', 'struct', 'In'] + _BODY + [';']))
     W.append(('typedef-name', ['T', ';']))
     W.append(('const-typedef-name', ['const', 'T', ';']))
     return W
@@ -78,7 +81,7 @@ def parse_spec(toks):
         t = toks[i]
         if t in ('const', 'volatile'):
             i += 1
-        elif t == '__attribute__':
+        elif t in ('__attribute__', '_Alignas'):
             i = _skip_group(toks, i)
         elif t in ('struct', 'union') and kind is None:
             kind = 'record'
@@ -145,7 +148,7 @@ def run(P, u, rep, TokenWorld):
             rep.undecided('R08.3', base, 'type kind %s vanished' % k, where=where)
             return
     tw = TokenWorld(P, u)
-    tw.typenames = set(tw.typenames) | {'const', 'volatile', 'struct', 'union', 'int'}
+    tw.typenames = set(tw.typenames) | {'const', 'volatile', 'struct', 'union', 'int', 'long', '_Alignas'}
 
     def m_declspec(it, ctx, call, args):
         rest, tok = args[0], args[1]
@@ -158,11 +161,17 @@ def run(P, u, rep, TokenWorld):
         rest.place.set(it, after)
         first = sp[0] if sp else ''
         rec = 'union' if 'union' in sp[:n] else 'struct'
-        ty = Obj('Type', lazy=False, label='basety')
+        # what the model does not compute is UNKNOWN, not zero: a struct_members() that decides on another fact declspec() reports (a field of
+        # *attr, a field of the type) forks on it, and the world is reported undecided instead of judged with a made-up value
+        ty = Obj('Type', lazy=True, label='basety')
         ty.fields.update({'kind': E['TY_INT'] if kind == 'int' else (E['TY_UNION'] if rec == 'union' else E['TY_STRUCT']),
-                          'size': 4, 'align': 4, 'name': 0, 'name_pos': 0, 'base': 0, 'array_len': 0, 'members': 0, 'is_flexible': 0,
-                          'is_packed': 0, 'is_unsigned': 0, 'is_atomic': 0, 'origin': 0, 'vla_len': 0, 'vla_size': 0, 'return_ty': 0, 'params': 0,
-                          'is_variadic': 0, 'next': 0})
+                          'size': 4, 'align': 4, 'name': 0, 'name_pos': 0, 'base': 0, 'array_len': 0, 'is_flexible': 0})
+        if isinstance(attr, Obj):
+            for f, _qt, _bf in u.records.get('VarAttr', []):
+                if f == 'align':
+                    attr.fields[f] = 8 if '_Alignas' in sp[:n] else 0
+                else:
+                    attr.fields[f] = Sym('attr.%s' % f, 'int')
         ctx.c08_specs = getattr(ctx, 'c08_specs', []) + [ty]
         return ty
 
@@ -173,7 +182,7 @@ def run(P, u, rep, TokenWorld):
         if tok.fields.get('kind') != E['TK_IDENT']:
             raise AnalysisBroken('declarator() of a token world starts at `%s`, not at an identifier' % tok.fields.get('loc'))
         rest.place.set(it, tok.fields.get('next'))
-        ty = Obj('Type', lazy=False, label='declared')
+        ty = Obj('Type', lazy=True, label='declared')
         ty.fields.update(basety.fields)
         ty.fields['name'] = tok
         ty.fields['name_pos'] = tok
@@ -248,5 +257,5 @@ def run(P, u, rep, TokenWorld):
             rep.ob('R08.3', key, ok,
                    '`%s` in a member list (%s: declares no member, C11 6.7.2.1p2/p13) adds %d unnamed member(s) (list length %d, expected `tail` only): the enclosing struct is larger than '
                    'gcc\'s and every later member lies further' % (shown, 'a typedef name' if 'T' in decl[:n] else 'a struct/union specifier WITH a tag', len(anon), len(chain)), where=where)
-    if judged < 30:
-        rep.undecided('R08.3', base, 'only %d of the concrete member lists with a declarator-less declaration could be judged (floor 30)' % judged, where=where)
+    if judged < 32:
+        rep.undecided('R08.3', base, 'only %d of the concrete member lists with a declarator-less declaration could be judged (floor 32)' % judged, where=where)
